@@ -268,7 +268,8 @@ def table() -> int:
         if tgt in m.get("reports", {}) and m["reports"][tgt]:
             r = m["reports"][tgt][0]
             first = r.split("rule=")[1].split(" ")[0] if "rule=" in r else ""
-        verdict = "caught" if tgt in caught else ("exit 2 (undecidable form)" if tgt in errs else "MISSED")
+        verdict = "caught" if tgt in caught else ("exit 2 (undecidable form)" if tgt in errs else
+                                                  ("not decided: " + m["outside"] if m.get("outside") else "MISSED"))
         summ = " ".join((m.get("summary") or "").split())[:150]
         rows.append(f"| {name} | {tgt} | {summ} | {verdict}{' by ' + tgt + '/' + first if first else ''} | "
                     f"{', '.join(c for c in caught if c != tgt) or '-'} |")
